@@ -33,6 +33,11 @@ THEOREMS = [
     "Scenic.C03.union_lowdim_ignored",
     "Scenic.C03.union_without_rejection_not_uniform",
     "Scenic.C03.union_unit_weights_not_uniform",
+    "Scenic.C03.union_support_general",
+    "Scenic.C03.union_self_test_loses_support",
+    "Scenic.C03.grid_operand_exact",
+    "Scenic.C03.grid_cell_membership_not_uniform",
+    "Scenic.C03.intersection_needs_self_recognition",
     "Scenic.C03.intersection_uniform",
     "Scenic.C03.intersection_prim_uniform",
     "Scenic.C03.difference_uniform",
@@ -40,12 +45,18 @@ THEOREMS = [
     "Scenic.C03.pointset_inter_uniform_iff",
     "Scenic.C03.pointset_inter_uniform",
     "Scenic.C03.small_ball_loses_points",
+    "Scenic.C03.pointset_inter_guarded_uniform",
+    "Scenic.C03.pointset_inter_true_membership",
+    "Scenic.C03.pointset_inter_containsPoint_leaks",
     "Scenic.C03.segments_mass",
     "Scenic.C03.segments_uniform",
     "Scenic.C03.segments_overlap_doubled",
     "Scenic.C03.rejection_loop_limit",
     "Scenic.C03.rejection_ratio_bounds",
     "Scenic.C03.polygon_uniform",
+    "Scenic.C03.retry_loop_mass",
+    "Scenic.C03.polygon_filtered_uniform",
+    "Scenic.C03.polygon_unfiltered_leaks",
     "Scenic.C03.outer_rejection_uniform",
     "Scenic.C03.rect_sample_mem",
     "Scenic.C03.rect_sample_surj",
@@ -59,6 +70,11 @@ THEOREMS = [
     "Scenic.C03.uniformAB_mem",
     "Scenic.C03.poly_candidate_mem",
     "Scenic.C03.z_zero_breaks_membership",
+    "Scenic.C03.polygon_true_membership_z",
+    "Scenic.C03.polygon_candidate_recognised",
+    "Scenic.C03.footprint_membership_ignores_z",
+    "Scenic.C03.polyline_recognises_own_samples",
+    "Scenic.C03.polyline_exact_test_rejects_rounding",
     "Scenic.C03.triangular_radius_area_uniform",
     "Scenic.C03.uniform_radius_not_area_uniform",
     "Scenic.C03.sector_circumcircle_sound",
@@ -67,8 +83,8 @@ THEOREMS = [
     "Scenic.C03.rect_circumcircle_sound",
     "Scenic.C03.mesh_circumball_sound",
 ]
-SIDE = ["Scenic.C03.gen_sampler_cfg", "Scenic.C03.gen_ball_filter", "Scenic.C03.gen_z_table", "Scenic.C03.gen_sector_circ_ok",
-        "Scenic.C03.gen_circ_table"]
+SIDE = ["Scenic.C03.gen_sampler_cfg", "Scenic.C03.gen_ball_filter", "Scenic.C03.gen_ball_fallback", "Scenic.C03.gen_z_table",
+        "Scenic.C03.gen_sector_circ_ok", "Scenic.C03.gen_circ_table", "Scenic.C03.gen_polygon_filter", "Scenic.C03.gen_membership"]
 
 R = "src/scenic/core/regions.py"
 FINGERPRINTS = {
@@ -82,6 +98,11 @@ FINGERPRINTS = {
     "PointSet.intersect": (R, "PointSetRegion.intersect"),
     "PointSet.containsPoint": (R, "PointSetRegion.containsPoint"),
     "Grid": (R, "GridRegion"),
+    "PointInRegionDistribution": (R, "PointInRegionDistribution"),
+    "Region.uniformPointIn": (R, "Region.uniformPointIn"),
+    "Region.orient": (R, "Region.orient"),
+    "veneer.In": ("src/scenic/syntax/veneer.py", "In"),
+    "veneer.On": ("src/scenic/syntax/veneer.py", "On"),
     "Polygonal.uniformPointInner": (R, "PolygonalRegion.uniformPointInner"),
     "Polygonal._samplingData": (R, "PolygonalRegion._samplingData"),
     "Polygonal._trueContainsPoint": (R, "PolygonalRegion._trueContainsPoint"),
@@ -329,7 +350,8 @@ def gen_grid(rng, RG):
     g = [[1 if rng.random() < 0.4 else 0 for _ in range(w)] for _ in range(h)]
     if all(all(c == 1 for c in row) for row in g):
         g[0][0] = 0
-    return RG.GridRegion("grid", g, 1, 1, rng.randint(0, 2), rng.randint(0, 2))
+    ax, ay = rng.choice([(1, 1), (1, 2), (2, 1), (1, 1)])
+    return RG.GridRegion("grid", g, ax, ay, rng.randint(0, 2), rng.randint(0, 1))
 
 
 def gen_opaque(rng, RG, kinds=None):
@@ -417,9 +439,9 @@ class Reflect:
             if hasattr(o, "circumcircle"):
                 center, radius = o.circumcircle
                 inb = self.lean_inball(self, ps, center, radius)
-            else:   # no candidate ball: every point is a candidate (or the real sampler crashes, reported separately)
-                inb = [True] * len(ps.points)
-            ins = f"B {a} {self.lst([i for i, f in zip(self.ids(ps.points), inb) if f])} {b}"
+                ins = f"B {a} {self.lst([i for i, f in zip(self.ids(ps.points), inb) if f])} {b}"
+            else:   # no candidate ball: the model applies the regenerated fallback (all points | AttributeError)
+                ins = f"B {a} N {b}"
         elif isinstance(reg, RG.UnionRegion) and reg.sampler is None:
             ins = "U " + self.lst([self.emit(r) for r in reg.regions])
         elif isinstance(reg, RG.DifferenceRegion) and reg.sampler is None:
@@ -583,48 +605,57 @@ def all_leaves(RG, *regs):
 
 
 def classify(RG, default, what, res=None, A=None, B=None, point=None, msg=""):
-    """stable key of a failure: a named root cause where one is recognised, else the default (types involved)"""
-    lv = all_leaves(RG, res, A, B)
-    if what in ("membership", "uniformity", "unreachable"):
-        for l in lv:
-            # the polygon (and hence `size`, AABB and every shapely-based composition) of a wide sector is not the sector
-            if isinstance(l, RG.SectorRegion) and l.angle < math.tau - 0.001 \
-                    and abs(l.polygons.area - l.angle / 2 * l.radius ** 2) > 0.01 * l.angle / 2 * l.radius ** 2:
-                return "sector-polygon-wide-angle"
-    if what == "crash":
-        if "circumcircle" in msg:
-            return "pointset-inter-no-circumcircle"
-        if "ZeroDivisionError" in default and any(isinstance(r, RG.UnionRegion) for r in (res,)):
-            return "union-zero-containment-count"
-        return default
-    if what == "membership":
-        if point is not None:
-            for l in lv:
-                # a planar region at another height whose z-blind containsPoint accepts the point
-                if isinstance(l, RG.PolygonalRegion) and float(point[2]) != float(l.z) and bool(l.containsPoint(vec(point))) \
-                        and isinstance(res, RG.IntersectionRegion) and res.sampler is not None:
-                    return "pointset-inter-ignores-z"
-            if isinstance(res, RG.PolylineRegion) and any(isinstance(l, RG.PolygonalRegion) and float(l.z) != 0 for l in all_leaves(RG, A, B)):
-                return "polygon-polyline-intersection-drops-z"
-            for l in lv:
-                if type(l) is RG.PolygonalRegion and float(point[2]) == float(l.z) and triangulation_overshoot(l) > 0 \
-                        and not bool(l.containsPoint(vec(point))):
-                    return "polygon-triangulation-overshoot"
-        return default
-    if what == "unreachable":
-        if isinstance(res, RG.IntersectionRegion) and res.sampler is None and any(isinstance(l, RG.PolylineRegion) for l in res.regions):
-            return "polyline-self-containment"
-        return default
-    if what == "uniformity":
-        if isinstance(res, RG.UnionRegion) and any(isinstance(l, RG.GridRegion) for l in lv):
-            return "grid-cell-containment"
-        if isinstance(res, RG.PolygonalRegion) and any(isinstance(x, RG.MeshVolumeRegion) for x in (A, B)):
+    """stable key of a failure: the default (operation and types involved), except for the one recorded root cause
+    that is not a defect of /repo's own code (trimesh's cross-section of a mesh)"""
+    if what == "uniformity" and "intersect:" in default and isinstance(res, RG.PolygonalRegion) \
+            and any(isinstance(x, RG.MeshVolumeRegion) for x in (A, B)) and any(isinstance(x, RG.PolygonalRegion) for x in (A, B)):
+        vol = A if isinstance(A, RG.MeshVolumeRegion) else B
+        pol = B if vol is A else A
+        if mesh_slice_incomplete(vol, pol):
             return "mesh-slice-incomplete"
-        for l in lv:
-            if type(l) is RG.PolygonalRegion and triangulation_overshoot(l) > 0:
-                return "polygon-triangulation-overshoot"
-        return default
+    if what == "membership" and point is not None and isinstance(res, (RG.IntersectionRegion, RG.UnionRegion, RG.DifferenceRegion)) \
+            and getattr(res, "sampler", None) is None:
+        ops = res.regions if hasattr(res, "regions") else (res.regionA, res.regionB)
+        for o in ops:
+            if isinstance(o, (RG.IntersectionRegion, RG.UnionRegion, RG.DifferenceRegion)):
+                try:
+                    if bool(o._trueContainsPoint(vec(point))) != set_member(o, RG, point):
+                        return "nested-composition-footprint-membership"
+                except Exception:
+                    pass
     return default
+
+
+def set_member(r, RG, p):
+    """set-theoretic membership of p in a region tree, from the leaves' `_trueContainsPoint`"""
+    if isinstance(r, RG.IntersectionRegion):
+        return all(set_member(x, RG, p) for x in r.regions)
+    if isinstance(r, RG.UnionRegion):
+        return any(set_member(x, RG, p) for x in r.regions)
+    if isinstance(r, RG.DifferenceRegion):
+        return set_member(r.regionA, RG, p) and not set_member(r.regionB, RG, p)
+    return bool(r._trueContainsPoint(vec(p)))
+
+
+def mesh_slice_incomplete(vol, pol):
+    """is the polygon set that trimesh's `section(...).polygons_full` returns for the slice of `vol` at the height of `pol`
+    smaller than the true cross-section (estimated with trimesh's own point containment on a grid)?"""
+    import numpy
+    import shapely
+    try:
+        sl = vol.mesh.section(plane_origin=(vol.mesh.centroid[0], vol.mesh.centroid[1], float(pol.z)), plane_normal=[0, 0, 1])
+        lib = 0.0
+        if sl is not None:
+            s2, _ = sl.to_2D(to_2D=numpy.eye(4))
+            lib = float(sum(p.area for p in s2.polygons_full))
+        (x0, y0, _), (x1, y1, _) = vol.mesh.bounds
+        n = 60
+        xs, ys = numpy.meshgrid(numpy.linspace(x0, x1, n + 2)[1:-1], numpy.linspace(y0, y1, n + 2)[1:-1])
+        pts = numpy.column_stack([xs.ravel(), ys.ravel(), numpy.full(xs.size, float(pol.z))])
+        true = float(vol.mesh.contains(pts).mean() * (x1 - x0) * (y1 - y0))
+        return lib < 0.8 * true - 0.05
+    except Exception:
+        return False
 
 
 def triangulation_overshoot(reg):
@@ -691,10 +722,10 @@ def corr_discrete(ctx, RG):
         if undef not in (0, 1):
             ctx.broken("correspondence", "UndefinedSamplingException is not structural", describe(reg, RG))
         expected = "undef" if undef == 1 else show_pmf(pmf, refl.universe)
-        cases.append((refl.line(), expected, shape, describe(reg, RG), refl.universe, pmf, reg))
+        cases.append((refl.line(), expected, shape, describe(reg, RG), refl.universe, pmf, reg, refl.borderline))
     lean = ctx.driver([c[0] for c in cases]) if cases else []
     bad = 0
-    for (line, expected, shape, desc, universe, pmf, reg), got in zip(cases, lean):
+    for (line, expected, shape, desc, universe, pmf, reg, borderline), got in zip(cases, lean):
         npts = sum(1 for k in pmf if k[0] == "pt")
         nontrivial = npts >= 2 or (npts >= 1 and pmf.get(("reject",), 0) > 0)
         ctx.case(("pmf", line), nontrivial=nontrivial)
@@ -708,7 +739,9 @@ def corr_discrete(ctx, RG):
                 ctx.broken("correspondence", "sampler model vs regions.py (exact PMF)",
                            f"{desc}: lean={got[:200]} python={expected[:200]} program={line[:300]}")
         # the property itself on the enumerated PMF (direct oracle, no model): uniform on the true composed set
-        found |= direct_discrete(ctx, RG, reg, pmf, universe, desc)
+        # points within 1e-9 (relative) of the candidate sphere are excluded from the support clause (explicit margin:
+        # whether the k-d tree reports them is decided by float rounding of hypot)
+        found |= direct_discrete(ctx, RG, reg, pmf, universe, desc, support=not borderline)
     return found
 
 
@@ -737,7 +770,7 @@ def leaves(reg, RG):
     return [reg]
 
 
-def direct_discrete(ctx, RG, reg, pmf, universe, desc):
+def direct_discrete(ctx, RG, reg, pmf, universe, desc, support=True):
     """membership, support and uniformity of an exactly enumerated sampler, checked directly"""
     if pmf.get(("undef",), 0) == 1:
         if isinstance(reg, RG.IntersectionRegion) and all(isinstance(r, RG.PointSetRegion) for r in reg.regions):
@@ -760,6 +793,10 @@ def direct_discrete(ctx, RG, reg, pmf, universe, desc):
         found |= bool(ctx.violation(classify(RG, f"discrete-membership:{type(reg).__name__}:{tag}", "membership", res=reg, point=outside[0]),
                                     f"{desc} returned {outside[0]} which is not in the composed set", rep))
     missing = [p for p in truth if p not in pts]
+    if missing and not support:
+        ctx.hist("discrete_support_skipped(point on the candidate sphere)", 1)
+        missing = []
+        return found
     if missing:
         found |= bool(ctx.violation(f"discrete-support:{type(reg).__name__}:{tag}",
                                     f"{desc} never returns {missing[0]} although it lies in the composed set "
@@ -873,6 +910,24 @@ def regression_cases(RG):
     out.append(("regress:ps&rect", ps.intersect(RG.RectangularRegion(Vector(0.3, 0.1, 0), 0.6, 3.1, 1.7))))
     out.append(("regress:ps&circle", ps.intersect(RG.CircularRegion(Vector(0.3, 0.1, 0), 1.3))))
     out.append(("regress:ps&ps", RG.PointSetRegion("a", [(0, 0), (1, 0), (2, 0)]).intersect(RG.PointSetRegion("b", [(1, 0), (2, 0), (3, 0)]))))
+    # inputs of the defects repaired by 12542374, 1511e557, 3b39d4d8/fecea6a1, a74c56e1 (found by this check in round 1)
+    g = RG.GridRegion("grid", [[0, 1, 0], [0, 0, 1]], 1, 1, 0, 0)
+    out.append(("regress:ps|grid(free cell)", RG.UnionRegion(RG.PointSetRegion("a", [(0.25, 0.1, 0), (5, 5, 0), (2, 0, 0)]), g)))
+    out.append(("regress:grid|ps(z)", RG.UnionRegion(g, RG.PointSetRegion("a", [(0, 0, 1), (0, 0, 0), (7, 7, 0)]))))
+    sq = RG.PolygonalRegion([(-1, -1), (2.5, -1), (2.5, 2.5), (-1, 2.5)], z=1)
+    out.append(("regress:ps&polygon(z=1)", RG.PointSetRegion("a", [(0, 0, 0), (0, 0, 1), (1, 1, 1), (2, 2, 0), (9, 9, 1)]).intersect(sq)))
+    out.append(("regress:ps&rect(z=1)", RG.PointSetRegion("a", [(0, 0, 0), (0, 0, 1), (1, 1, 1), (2, 2, 0), (9, 9, 1)]).intersect(
+        RG.RectangularRegion(Vector(0.5, 0.5, 1), 0.3, 4, 4))))
+    pl = RG.PolylineRegion([(0, 0), (2, 0), (2, 3)])
+    out.append(("regress:ps&polyline", RG.PointSetRegion("a", [(1, 0, 0), (2, 1, 0), (2, 1, 1), (3, 3, 0)]).intersect(pl)))
+    out.append(("regress:ps&path", RG.PointSetRegion("a", [(1, 0, 0), (2, 1.5, 0.5), (2, 1, 1), (3, 3, 0)]).intersect(
+        RG.PathRegion(points=[(0, 0, 0), (2, 0, 0), (2, 3, 1)]))))
+    # coordinator's seed-1 alarm on the tree before the repairs: the footprint polygon of a 5.5 rad sector was not the sector,
+    # so the nested generic intersection rejected (2,2,0) and (1,3,0)
+    wide = RG.PointSetRegion("ps", [(2, 2, 0), (1, 3, 0), (3, 2, 0), (0, 3, 0), (1, 0, 0), (2, 0, 0)]).intersect(
+        RG.SectorRegion(Vector(0.44, 2.13, 0), 3.3, 2.964490376247597, 5.5))
+    out.append(("regress:I(ps&sector5.5,ps)", RG.IntersectionRegion(wide, RG.PointSetRegion("q", [(2, 2, 0), (1, 3, 0), (5, 5, 0)]))))
+    out.append(("regress:D(ps&sector5.5,ps)", RG.DifferenceRegion(wide, RG.PointSetRegion("q", [(3, 2, 0), (5, 5, 0)]))))
     out.append(("witness:union-overlap", RG.UnionRegion(RG.PointSetRegion("a", [(1, 0), (2, 0), (3, 0)]), RG.PointSetRegion("b", [(3, 0), (4, 0)]))))
     return out
 
@@ -1629,9 +1684,21 @@ class Comp:
                     raise NotImplementedError("coplanar union (handled by the library through shapely)")
                 if d == 0:
                     raise NotImplementedError("discrete unions are handled exactly")
-                counts = nrng.multinomial(n, numpy.array(ms) / sum(ms))
-                parts = [a.propose(nrng, int(c)) for a, c in zip(tops, counts) if c]
-                return numpy.concatenate(parts)
+                # mixture by measure, thinned by 1/multiplicity so that overlapping operands (e.g. two paths sharing a
+                # polyline) are not counted twice: uniform w.r.t. the measure of the composed set
+                out, got, tries = [], 0, 0
+                while got < n and tries < 20:
+                    k = 2 * n
+                    counts = nrng.multinomial(k, numpy.array(ms) / sum(ms))
+                    cand = numpy.concatenate([a.propose(nrng, int(c)) for a, c in zip(tops, counts) if c])
+                    mult = numpy.sum([a.mask(cand) for a in tops], axis=0)
+                    keep = nrng.random(len(cand)) < 1.0 / numpy.maximum(mult, 1)
+                    sel = cand[keep]
+                    nrng.shuffle(sel)
+                    out.append(sel)
+                    got += len(sel)
+                    tries += 1
+                return numpy.concatenate(out)[:n]
         out, got, tries = [], 0, 0
         lo, hi = self.aabb()
         while got < n and tries < 40:
@@ -1756,6 +1823,8 @@ def check_region(ctx, RG, reg, desc, rep, n, tag):
             return bool(ctx.violation(key, f"{desc} returned {p}, which is not in the region ({why})", dict(rep, point=list(p))))
     ctx.hist("S_membership", "decided", len(pts) - und)
     ctx.hist("S_membership", "undecided(boundary band)", und)
+    if tag == type(reg).__name__ and not isinstance(reg, (RG.IntersectionRegion, RG.UnionRegion, RG.DifferenceRegion)):
+        found |= self_recognition(ctx, RG, reg, pts, desc, rep)
     # ---- support + uniformity against an independent reference sampler
     if len(pts) >= 150 and mir.dim not in (None, 0):
         try:
@@ -1791,6 +1860,41 @@ def check_region(ctx, RG, reg, desc, rep, n, tag):
             ctx.hist("S_uniformity", "reference-too-small")
     ctx.hist("S_outcome", "ok")
     return found
+
+
+def self_recognition(ctx, RG, reg, pts, desc, rep):
+    """hypothesis `contains = atoms` of the union / intersection theorems: a region's `_trueContainsPoint` accepts its own
+    samples.  If it does not, the generic intersection with a superset rejects every draw (searched on the real code)."""
+    sub = pts[:120]
+    try:
+        miss = [p for p in sub if not bool(reg._trueContainsPoint(vec(p)))]
+    except Exception as e:
+        ctx.hist("S_self_recognition", f"error:{type(e).__name__}")
+        return False
+    ctx.hist("S_self_recognition", "recognised", len(sub) - len(miss))
+    if len(miss) <= max(2, len(sub) // 20):     # a few boundary samples may be lost to rounding
+        if miss:
+            ctx.hist("S_self_recognition", "boundary-misses", len(miss))
+        return False
+    ctx.broken("correspondence", "a region recognises its own samples (hypothesis of the union/intersection theorems)",
+               f"{desc}: _trueContainsPoint rejects {len(miss)} of {len(sub)} of its own samples, e.g. {miss[0]}")
+    # failing-input search: the generic intersection with a box that contains the whole region must be reachable
+    try:
+        import numpy
+        P = numpy.array(pts)
+        lo, hi = P.min(axis=0) - 1.0, P.max(axis=0) + 1.0
+        from scenic.core.vectors import Vector
+        big = RG.BoxRegion(dimensions=tuple(float(x) for x in (hi - lo)), position=Vector(*[float(x) for x in (lo + hi) / 2]))
+        inter = RG.IntersectionRegion(reg, big)
+        got, rej, outcome = sample_region(inter, RG, 30, 200)
+        if outcome == "ok" and len(got) < 10:
+            return bool(ctx.violation(f"unreachable:generic-intersection-with-superset:{type(reg).__name__}",
+                                      f"IntersectionRegion({desc}, <box containing it>): {rej} of {rej + len(got)} draws were rejected because "
+                                      f"the region's _trueContainsPoint rejects its own samples (e.g. {miss[0]})",
+                                      dict(rep, kind="self-superset", box=[list(map(float, lo)), list(map(float, hi))])))
+    except Exception as e:
+        ctx.hist("S_self_recognition", f"search-error:{type(e).__name__}")
+    return False
 
 
 def explain(mir, p):
@@ -1850,9 +1954,11 @@ def direct_oracle(ctx, RG):
     must = [("polyline", "polyline", "union"), ("polygon_holes", "multipolygon", "union"), ("surface", "polygon_holes", "union"),
             ("path", "path", "union"), ("box", "voxel", "union"), ("pointset", "rect", "intersect"), ("pointset", "multipolygon", "intersect"),
             ("polyline", "surface", "intersect"), ("path", "box", "intersect"), ("circle", "sector", "difference"),
-            ("box", "spheroid", "union"), ("polygon_holes", "box", "intersect"), ("rect", "circle", "union")]
+            ("box", "spheroid", "union"), ("polygon_holes", "box", "intersect"), ("rect", "circle", "union"),
+            ("polyline", "voxel", "intersect"), ("polyline", "box", "union"), ("pointset", "polyline", "intersect"),
+            ("polygon_holes", "polyline", "intersect"), ("sector", "circle", "difference")]
     order = must + [t for t in triples if t not in must]
-    limit = ctx.budget(34, len(order))
+    limit = ctx.budget(38, len(order))
     done = 0
     for (ka, kb, op) in order:
         if done >= limit or time.time() > deadline:
@@ -1963,6 +2069,109 @@ def check_composition(ctx, RG, A, B, op, res, desc, rep, n):
     return found
 
 
+# =========================================================================================== (C4) language level
+LANG_REGIONS = [
+    ("polygon z=1.5", "PolygonalRegion([(0, 0), (4, 0), (4, 3), (1.5, 1), (0, 3)], z=1.5)"),
+    ("circle z=-2", "CircularRegion((1, 2, -2), 2.5)"),
+    ("sector wide", "SectorRegion(Vector(0, 0, 0.5), 3, 0.7, 4.0)"),
+    ("rect", "RectangularRegion((1, -1, 2.25), 0.4, 3, 5)"),
+    ("box", "BoxRegion(dimensions=(2, 3, 1.5), position=(1, 1, 4))"),
+    ("path", "PathRegion(points=[(0, 0, 0), (2, 0, 1), (2, 3, 1)])"),
+    ("pointset", "PointSetRegion('ps', [(0, 0, 0), (1, 2, 3), (4, 5, 6), (-1, -1, 2)])"),
+    ("union", "RectangularRegion((0, 0, 0), 0, 2, 2).union(CircularRegion((5, 5, 1), 1))"),
+]
+
+
+def lang_program(expr, spec):
+    return (f"reg = {expr}\nparam reg = reg\n"
+            f"ego = new Object {spec} reg, with allowCollisions True, with requireVisible False, with shape BoxShape(dimensions=(1, 1, 1))\n")
+
+
+def lang_draw(prog, n, seed):
+    """positions of the object placed `in`/`on` the region by the real compiler + sampler; returns (region, points drawn)"""
+    import numpy
+    import scenic
+    random.seed(seed)
+    numpy.random.seed(seed)
+    sc = scenic.scenarioFromString(prog, mode2D=False)
+    out, reg = [], None
+    for _ in range(n):
+        scene, _ = sc.generate(maxIterations=200, verbosity=0)
+        ego = scene.egoObject
+        reg = scene.params["reg"]
+        off = (float(ego.contactTolerance) / 2 + float(ego.height) / 2) if " on " in prog else 0.0
+        out.append((float(ego.position.x), float(ego.position.y), float(ego.position.z) - off))
+    return reg, out
+
+
+def corr_language(ctx, RG):
+    """(C4) the glue between the specifiers and the samplers: `new Object in R` / `on R` place the object at (an offset of) a
+    point that the region's sampler drew; `Region.uniformPointIn(R).z` agrees with the drawn z"""
+    found = False
+    n = ctx.budget(12, 60)
+    for name, expr in LANG_REGIONS:
+        for spec in ("in", "on"):
+            if spec == "on" and name in ("pointset", "path", "box", "union"):
+                continue
+            prog = lang_program(expr, spec)
+            seed = ctx.rng.getrandbits(32)
+            try:
+                reg, pts = lang_draw(prog, n, seed)
+            except Exception as e:
+                ctx.hist("language_level", f"{spec}:{name}:not-run:{type(e).__name__}")
+                continue
+            ctx.hist("language_level", f"{spec}:{name}")
+            mir = mirror(reg, RG)
+            for p in pts:
+                ctx.case(("lang", name, spec, p), nontrivial=True)
+                # `on`: the base of the object touches the region (z offset removed above, up to rounding)
+                q = p if spec == "in" else (p[0], p[1], round(p[2], 9) if abs(p[2] - round(p[2], 9)) < 1e-12 else p[2])
+                v = mir.exact(q) if spec == "in" else mir.exact(tuple(nearest_z(reg, RG, q)))
+                if v is False:
+                    found |= bool(ctx.violation(f"language-level:{spec}:{type(reg).__name__}",
+                                                f"`new Object {spec} {expr}` was placed at {p} (offset removed), which is not in the region",
+                                                {"kind": "language", "program": prog, "seed": seed, "n": n, "spec": spec}))
+                    break
+    # PointInRegionDistribution.z (constant folding of the z coordinate) against the z of the samples
+    from scenic.core.distributions import Samplable
+    for kind in ("polygon_holes", "circle", "rect", "polyline", "grid", "path", "box"):
+        reg = make_any(ctx.rng, RG, kind)
+        d = RG.Region.uniformPointIn(reg)
+        try:
+            zexpr = d.z
+            for _ in range(4):
+                smp = Samplable.sampleAll([d] + ([zexpr] if isinstance(zexpr, Samplable) else []))
+                zval = smp[zexpr] if isinstance(zexpr, Samplable) else zexpr
+                ctx.case(("lang-z", kind, pkey(smp[d])))
+                if float(zval) != float(smp[d].z):
+                    found |= bool(ctx.violation(f"language-level:z-of-point-in:{type(reg).__name__}",
+                                                f"(point in {reg!r}).z evaluates to {zval} but the sampled point is {tuple(smp[d])}",
+                                                {"kind": "region", "build": rebuild_spec(reg, RG), "n": 20}))
+                    break
+            ctx.hist("language_level", f"z-of-point-in:{kind}")
+        except Exception as e:
+            ctx.hist("language_level", f"z-of-point-in:{kind}:not-run:{type(e).__name__}")
+    return found
+
+
+def nearest_z(reg, RG, q):
+    """`on`: snap the recovered z to the region's height when it is within rounding of it (planar regions)"""
+    z = getattr(reg, "z", None)
+    if z is not None and abs(float(z) - q[2]) < 1e-9:
+        return (q[0], q[1], float(z))
+    return q
+
+
+def replay_language(rep):
+    RG = real()
+    reg, pts = lang_draw(rep["program"], int(rep.get("n", 12)), int(rep["seed"]))
+    mir = mirror(reg, RG)
+    print(rep["program"])
+    bad = [p for p in pts if mir.exact(tuple(nearest_z(reg, RG, p))) is False]
+    print(f"{len(bad)} of {len(pts)} placements are outside the region", bad[:3])
+    return 0
+
+
 # =========================================================================================== main
 def run(ctx):
     ctx.rule = ("cases = (C1) generated discrete region compositions (point sets, grids, their unions/intersections/"
@@ -2010,6 +2219,7 @@ def run(ctx):
         found |= phase("C1 discrete PMFs", corr_discrete)
         found |= phase("C2 closed forms", corr_closed_forms)
         found |= phase("C3 circumcircles", corr_circumcircles)
+    found |= phase("C4 language level", corr_language)
     found |= phase("S direct oracle", direct_oracle)
     ctx.resolve_brokens(found)
 
@@ -2026,6 +2236,18 @@ def replay(ctx, path):
     seed = int(rep.get("seed", 0))
     random.seed(seed)
     numpy.random.seed(seed)
+    if kind == "self-superset":
+        from scenic.core.vectors import Vector
+        reg = build_from_spec(rep["build"], RG)
+        lo, hi = rep["box"]
+        big = RG.BoxRegion(dimensions=tuple(h - l for l, h in zip(lo, hi)), position=Vector(*[(l + h) / 2 for l, h in zip(lo, hi)]))
+        pts, rej, outcome = sample_region(RG.IntersectionRegion(reg, big), RG, 30, 200)
+        own = [pkey(reg.uniformPointInner()) for _ in range(50)]
+        print(f"IntersectionRegion({describe(reg, RG)[:200]}, box): drew {len(pts)} points, {rej} rejections, outcome {outcome}")
+        print(f"own samples recognised by _trueContainsPoint: {sum(bool(reg._trueContainsPoint(vec(p))) for p in own)} of {len(own)}")
+        return 0
+    if kind == "language":
+        return replay_language(rep)
     if kind in ("discrete", "crash", "region", "circumcircle"):
         reg = build_from_spec(rep["build"], RG)
         print("region:", describe(reg, RG)[:400])
